@@ -439,40 +439,32 @@ def versionMatch (vname expr : Str) : Except Err Bool :=
 
 /-! ## latest -/
 
-/-- Last element of the stably sorted list when the comparator is a total preorder: the last maximal
-element, found by one pass that replaces the candidate when the next element is not smaller. -/
-def lastMax (cmp : Lexed → Lexed → Int) : Option Lexed → List Lexed → Option Lexed
-  | best, [] => best
-  | none, x :: xs => lastMax cmp (some x) xs
-  | some b, x :: xs => if cmp x b ≥ 0 then lastMax cmp (some x) xs else lastMax cmp (some b) xs
-
-def lexAll : List Str → Except Err (List Lexed)
+/-- the names with their split forms (the sort compares every name: a malformed one raises) -/
+def lexPairs : List Str → Except Err (List (Str × Lexed))
   | [] => .ok []
   | s :: ss =>
     match lex s with
     | .error e => .error e
-    | .ok l => match lexAll ss with
+    | .ok l => match lexPairs ss with
       | .error e => .error e
-      | .ok ls => .ok (l :: ls)
+      | .ok ls => .ok ((s, l) :: ls)
 
-/-- same pass on names, keeping the position: `(index, name)` of the last maximal element -/
-def lastMaxIdx : Option (Nat × Lexed) → Nat → List Lexed → Option (Nat × Lexed)
-  | best, _, [] => best
-  | none, i, x :: xs => lastMaxIdx (some (i, x)) (i + 1) xs
-  | some (j, b), i, x :: xs =>
-    if cmpSort x b ≥ 0 then lastMaxIdx (some (i, x)) (i + 1) xs else lastMaxIdx (some (j, b)) (i + 1) xs
+/-- `vers[-1]` after `vers.sort(key=cmp_to_key(version_cmp))`, when the comparator is a total preorder
+on the list: the last maximal element (the sort is stable), found by one pass that replaces the
+candidate whenever the next element is not smaller. -/
+def lastMax : Option (Str × Lexed) → List (Str × Lexed) → Option (Str × Lexed)
+  | best, [] => best
+  | none, x :: xs => lastMax (some x) xs
+  | some b, x :: xs => if cmpSort x.2 b.2 ≥ 0 then lastMax (some x) xs else lastMax (some b) xs
 
 /-- `_selectPreferredProduct(products, ["latest"])`: `vers[-1]` after the sort, then the first
 product whose version *string* equals it.  Returns that product's index. -/
 def latest (names : List Str) : Except Err (Option Nat) :=
-  match lexAll names with
+  match lexPairs names with
   | .error e => .error e
-  | .ok ls =>
-    match lastMaxIdx none 0 ls with
+  | .ok ps =>
+    match lastMax none ps with
     | none => .ok none
-    | some (i, _) =>
-      match names[i]? with
-      | none => .ok none
-      | some v => .ok (some (names.findIdx (· == v)))
+    | some (v, _) => .ok (some (names.findIdx (· == v)))
 
 end EupsModel.VersionCmp
